@@ -2,7 +2,7 @@
 # tools/try_patch.sh <patch.diff> <ID> [<ID>...]  : apply a seeded change to /repo, run the quick checks, undo it.
 # (evidence files written during such a run are restored from git afterwards)
 set -u
-PATCH=$1; shift
+PATCH=$(readlink -f "$1"); shift
 cd /verif
 if ! git -C /repo diff --quiet; then echo "/repo is dirty"; exit 2; fi
 git -C /repo apply "$PATCH" || { echo "patch does not apply"; exit 2; }
